@@ -1,7 +1,10 @@
 //! C15 — KnowledgeBase: lookups, listing order, index and version stay consistent; concurrent
 //! histories are linearizable.
 //! sequential case := `S <K> <ops>` (snapshot after the last call) | `T <K> <ops>` (snapshot after every call)
-//!    ops  := comma list of a<n>.<sal> | A<n>.<sal> (added disabled) | r<n> | e<n> | d<n> | c   (`-` = none)
+//!    ops  := comma list of a<n>.<sal>[.<q>] | A<n>.<sal>[.<q>] (added disabled) | r<n> | e<n> | d<n> | c   (`-` = none)
+//!    q = row of the attribute table `decorate` (agenda group, activation group, no-loop, lock-on-active, dates, description
+//!        absent, number of conditions / actions): attributes the knowledge base's order, lookups and version must IGNORE
+//!        (absent = 0 = a plain rule; the model does not read it)
 //!    the rule added at position i carries tag i (stored in `Rule::description`); rule n is named "R<n>"
 //!    obs  := step;step;…   step := <out>:<version>[/<snap>]
 //!           | y  (fork: `spare = kb; kb = kb.clone()` — later calls go to the clone, the original stays alive)
@@ -23,7 +26,8 @@ use std::sync::{Arc, Barrier};
 
 #[derive(Clone, Debug, PartialEq)]
 enum Op {
-    Add(u32, i32, bool),
+    /// name, salience, enabled, attribute row (see `decorate`)
+    Add(u32, i32, bool, u32),
     Remove(u32),
     SetEnabled(u32, bool),
     Clear,
@@ -45,8 +49,7 @@ enum Op {
 
 fn show_op(o: &Op) -> String {
     match o {
-        Op::Add(n, s, true) => format!("a{}.{}", n, s),
-        Op::Add(n, s, false) => format!("A{}.{}", n, s),
+        Op::Add(n, s, en, q) => format!("{}{}.{}{}", if *en { "a" } else { "A" }, n, s, if *q == 0 { String::new() } else { format!(".{}", q) }),
         Op::Remove(n) => format!("r{}", n),
         Op::SetEnabled(n, true) => format!("e{}", n),
         Op::SetEnabled(n, false) => format!("d{}", n),
@@ -68,18 +71,22 @@ fn show_op(o: &Op) -> String {
 
 fn parse_op(s: &str) -> Option<Op> {
     let (h, rest) = s.split_at(s.char_indices().nth(1).map(|x| x.0).unwrap_or(s.len()));
-    let name_sal = |r: &str| -> Option<(u32, i32)> {
+    let name_sal = |r: &str| -> Option<(u32, i32, u32)> {
         let (a, b) = r.split_once('.')?;
-        Some((a.parse().ok()?, b.parse().ok()?))
+        let (b, q) = match b.split_once('.') {
+            Some((b, q)) => (b, q.parse().ok()?),
+            None => (b, 0),
+        };
+        Some((a.parse().ok()?, b.parse().ok()?, q))
     };
     Some(match h {
         "a" => {
-            let (n, v) = name_sal(rest)?;
-            Op::Add(n, v, true)
+            let (n, v, q) = name_sal(rest)?;
+            Op::Add(n, v, true, q)
         }
         "A" => {
-            let (n, v) = name_sal(rest)?;
-            Op::Add(n, v, false)
+            let (n, v, q) = name_sal(rest)?;
+            Op::Add(n, v, false, q)
         }
         "r" => Op::Remove(rest.parse().ok()?),
         "e" => Op::SetEnabled(rest.parse().ok()?, true),
@@ -120,7 +127,7 @@ fn rule_name(n: u32) -> String {
     format!("R{}", n)
 }
 
-fn mk_rule(n: u32, sal: i32, enabled: bool, tag: usize) -> Rule {
+fn mk_rule(n: u32, sal: i32, enabled: bool, tag: usize, q: u32) -> Rule {
     let mut r = Rule::new(
         rule_name(n),
         ConditionGroup::single(Condition::new("X".to_string(), Operator::Equal, Value::Integer(1))),
@@ -129,7 +136,75 @@ fn mk_rule(n: u32, sal: i32, enabled: bool, tag: usize) -> Rule {
     .with_salience(sal)
     .with_description(tag.to_string());
     r.enabled = enabled;
+    decorate(r, q, tag)
+}
+
+/// number of rows of the attribute table
+const NQ: u32 = 18;
+
+/// attribute table: everything a rule carries BESIDE name, salience, enabled flag and tag. The knowledge base stores
+/// these attributes and must not let them influence the listing order ("descending salience with insertion order
+/// among equals"), the lookups, the counts or the version. Group names are chosen so that their alphabetical order,
+/// their length order and `None < Some` all differ from a typical insertion order.
+fn decorate(mut r: Rule, q: u32, tag: usize) -> Rule {
+    use rust_rule_engine::types::ActionType;
+    let set = |f: &str, v: i64| ActionType::Set { field: f.to_string(), value: Value::Integer(v) };
+    let cond = |f: &str| ConditionGroup::single(Condition::new(f.to_string(), Operator::Equal, Value::Integer(1)));
+    match q {
+        1 => r.agenda_group = Some("zeta".into()),
+        2 => r.agenda_group = Some("alpha".into()),
+        3 => r.agenda_group = Some(String::new()),
+        4 => r.agenda_group = Some("MAIN".into()),
+        5 => r.activation_group = Some("zz".into()),
+        6 => r.activation_group = Some("aa".into()),
+        7 => r.no_loop = true,
+        8 => r.lock_on_active = true,
+        9 => r = r.with_date_effective_str("2001-02-03T04:05:06Z").unwrap_or_else(|_| unreachable!()),
+        10 => r = r.with_date_expires_str("2999-02-03T04:05:06Z").unwrap_or_else(|_| unreachable!()),
+        // no description: the tag travels in the first action (see `tag_of`); three actions
+        11 => {
+            r.description = None;
+            r.actions = vec![set("Y", tag as i64), set("Z", 1), set("Z", 2)];
+        }
+        // three conditions
+        12 => r.conditions = ConditionGroup::and(ConditionGroup::and(cond("X"), cond("W")), cond("V")),
+        13 => {
+            r.agenda_group = Some("beta".into());
+            r.activation_group = Some("mm".into());
+            r.no_loop = true;
+            r.lock_on_active = true;
+            r.actions = vec![set("Z", 7)];
+        }
+        14 => r.agenda_group = Some("Alpha".into()),
+        // not effective yet and already expired
+        15 => {
+            r = r.with_date_effective_str("2999-02-03T04:05:06Z").unwrap_or_else(|_| unreachable!());
+            r = r.with_date_expires_str("2001-02-03T04:05:06Z").unwrap_or_else(|_| unreachable!());
+        }
+        16 => r.agenda_group = Some("a much longer agenda group name".into()),
+        17 => {
+            r.activation_group = Some(String::new());
+            r.agenda_group = Some("MAIN".into());
+        }
+        _ => {}
+    }
     r
+}
+
+/// the attribute rows that GRL text can express (bulk loading), as rule-header attributes
+fn grl_attrs(q: u32) -> Option<&'static str> {
+    Some(match q {
+        0 => "",
+        1 => " agenda-group \"zeta\"",
+        2 => " agenda-group \"alpha\"",
+        4 => " agenda-group \"MAIN\"",
+        5 => " activation-group \"zz\"",
+        6 => " activation-group \"aa\"",
+        7 => " no-loop",
+        8 => " lock-on-active",
+        14 => " agenda-group \"Alpha\"",
+        _ => return None,
+    })
 }
 
 fn name_id(s: &str) -> String {
@@ -232,7 +307,7 @@ fn show_res(r: &Res) -> String {
 
 fn apply(kb: &KnowledgeBase, op: &Op, tag: usize) -> Res {
     match op {
-        Op::Add(n, s, en) => Res::Added(kb.add_rule(mk_rule(*n, *s, *en, tag)).is_ok()),
+        Op::Add(n, s, en, q) => Res::Added(kb.add_rule(mk_rule(*n, *s, *en, tag, *q)).is_ok()),
         Op::Remove(n) => Res::Bool(kb.remove_rule(&rule_name(*n)).ok()),
         Op::SetEnabled(n, b) => Res::Bool(kb.set_rule_enabled(&rule_name(*n), *b).ok()),
         Op::Clear => {
@@ -446,12 +521,14 @@ fn exec(case: &str) -> String {
             }
             let mut text = String::new();
             for (j, op) in bulk.iter().enumerate() {
-                let Op::Add(n, sal, true) = op else { return "bad-case".into() };
+                let Op::Add(n, sal, true, q) = op else { return "bad-case".into() };
+                let Some(attrs) = grl_attrs(*q) else { return "bad-case".into() };
                 text.push_str(&format!(
-                    "rule \"{}\" \"{}\" salience {} {{ when X == 1 then Y = {}; }}\n",
+                    "rule \"{}\" \"{}\" salience {}{} {{ when X == 1 then Y = {}; }}\n",
                     rule_name(*n),
                     pre.len() + j,
                     sal,
+                    attrs,
                     pre.len() + j
                 ));
             }
@@ -548,7 +625,7 @@ fn exhaustive_with(rng: &mut Rng, names: u32, sals: &[i32], full: bool, minlen: 
             let ren: Vec<Op> = cur
                 .iter()
                 .map(|o| match o {
-                    Op::Add(n, s, e) => Op::Add(perm[*n as usize], *s, *e),
+                    Op::Add(n, s, e, q) => Op::Add(perm[*n as usize], *s, *e, *q),
                     Op::Remove(n) => Op::Remove(perm[*n as usize]),
                     Op::SetEnabled(n, b) => Op::SetEnabled(perm[*n as usize], *b),
                     o => o.clone(),
@@ -562,7 +639,7 @@ fn exhaustive_with(rng: &mut Rng, names: u32, sals: &[i32], full: bool, minlen: 
         let lim = if used < names { used + 1 } else { names };
         for n in 0..lim {
             let used2 = if n == used { used + 1 } else { used };
-            let mut ops: Vec<Op> = sals.iter().map(|s| Op::Add(n, *s, true)).collect();
+            let mut ops: Vec<Op> = sals.iter().map(|s| Op::Add(n, *s, true, 0)).collect();
             ops.push(Op::Remove(n));
             if full {
                 ops.push(Op::SetEnabled(n, true));
@@ -585,8 +662,8 @@ fn exhaustive_with(rng: &mut Rng, names: u32, sals: &[i32], full: bool, minlen: 
 fn random_mutator(rng: &mut Rng, names: u32, sals: &[i32]) -> Op {
     let n = rng.below(names as u64) as u32;
     match rng.below(104) {
-        0..=39 => Op::Add(n, *rng.pick(sals), true),
-        40..=49 => Op::Add(n, *rng.pick(sals), false),
+        0..=39 => Op::Add(n, *rng.pick(sals), true, 0),
+        40..=49 => Op::Add(n, *rng.pick(sals), false, 0),
         50..=71 => Op::Remove(n),
         72..=82 => Op::SetEnabled(n, true),
         83..=93 => Op::SetEnabled(n, false),
@@ -636,7 +713,7 @@ fn large_case(rng: &mut Rng) -> String {
         let roll = if reached && extra == 0 && !late_add { 0 } else { rng.below(100) };
         match roll {
             0..=74 => {
-                ops.push(Op::Add(next, *rng.pick(classes), !rng.chance(1, 8)));
+                ops.push(Op::Add(next, *rng.pick(classes), !rng.chance(1, 8), 0));
                 stored.push(next);
                 next += 1;
                 late_add = late_add || stored.len() > 21;
@@ -647,7 +724,7 @@ fn large_case(rng: &mut Rng) -> String {
                 ops.push(Op::Remove(n));
             }
             83..=88 if !stored.is_empty() => ops.push(Op::SetEnabled(*rng.pick(&stored), rng.chance(1, 2))),
-            89..=92 if !stored.is_empty() => ops.push(Op::Add(*rng.pick(&stored), *rng.pick(classes), true)), // rejected duplicate
+            89..=92 if !stored.is_empty() => ops.push(Op::Add(*rng.pick(&stored), *rng.pick(classes), true, 0)), // rejected duplicate
             // the clone re-adds (and re-sorts) more than 20 rules one by one; sometimes go on with the original
             98 if stored.len() > 20 => {
                 ops.push(Op::CloneKb);
@@ -657,7 +734,7 @@ fn large_case(rng: &mut Rng) -> String {
             }
             93..=97 if !removed.is_empty() => {
                 let n = removed.remove(rng.below(removed.len() as u64) as usize);
-                ops.push(Op::Add(n, *rng.pick(classes), true)); // re-add under an old name (new tag, new place among equals)
+                ops.push(Op::Add(n, *rng.pick(classes), true, 0)); // re-add under an old name (new tag, new place among equals)
                 stored.push(n);
                 late_add = late_add || stored.len() > 21;
             }
@@ -701,7 +778,7 @@ fn gen(rng: &mut Rng, n: usize, tier: &str) -> Vec<String> {
         let names = *rng.pick(&[2u32, 3, 4, 6]);
         let pre: Vec<Op> = (0..rng.below(5)).map(|_| random_mutator(rng, names, &SALS)).collect();
         let bulk: Vec<Op> = (0..rng.range(1, 8))
-            .map(|_| Op::Add(rng.below(names as u64 + 2) as u32, *rng.pick(&SALS), true))
+            .map(|_| Op::Add(rng.below(names as u64 + 2) as u32, *rng.pick(&SALS), true, 0))
             .collect();
         out.push(format!("B {} {} {}", names + 2, show_ops(&pre), show_ops(&bulk)));
     }
@@ -741,7 +818,7 @@ fn gen(rng: &mut Rng, n: usize, tier: &str) -> Vec<String> {
     // (3) concurrent histories: 3 threads x 4 calls on a shared knowledge base
     for _ in 0..(n / 8).max(1) {
         let names = *rng.pick(&[2u32, 3, 3, 4]);
-        let pre: Vec<Op> = (0..rng.below(4)).map(|_| Op::Add(rng.below(names as u64) as u32, *rng.pick(&SALS), true)).collect();
+        let pre: Vec<Op> = (0..rng.below(4)).map(|_| Op::Add(rng.below(names as u64) as u32, *rng.pick(&SALS), true, 0)).collect();
         let ths: Vec<String> = (0..3)
             .map(|_| show_ops(&(0..4).map(|_| random_any(rng, names, &SALS)).collect::<Vec<_>>()))
             .collect();
@@ -758,7 +835,7 @@ fn gen(rng: &mut Rng, n: usize, tier: &str) -> Vec<String> {
     let mut deal = 0usize;
     for _ in 0..(n / 16).max(12) {
         let names = *rng.pick(&[2u32, 3, 3]);
-        let pre: Vec<Op> = (0..rng.range(1, 3)).map(|_| Op::Add(rng.below(names as u64) as u32, *rng.pick(&SALS), true)).collect();
+        let pre: Vec<Op> = (0..rng.range(1, 3)).map(|_| Op::Add(rng.below(names as u64) as u32, *rng.pick(&SALS), true, 0)).collect();
         let mut ths: Vec<String> = (0..2)
             .map(|_| {
                 show_ops(
@@ -795,6 +872,117 @@ fn gen(rng: &mut Rng, n: usize, tier: &str) -> Vec<String> {
         ths.insert(rng.below(3) as usize, show_ops(&readers));
         out.push(format!("C {} {}", show_ops(&pre), ths.join(" ")));
     }
+    // (4) rule ATTRIBUTES the knowledge base must ignore (appended last: the random stream of the families above is unchanged)
+    attr_family(rng, n, &mut out);
+    out
+}
+
+/// (4) attribute family — every added rule carries a row of the attribute table `decorate` (agenda group None / "" / several
+/// names, activation group, no-loop, lock-on-active, dates, description absent, several conditions / actions); names are used
+/// in NON-alphabetical order. The listing must stay "descending salience, insertion order among equals" whatever the rules carry.
+fn attr_family(rng: &mut Rng, n: usize, out: &mut Vec<String>) {
+    // (4a) every ordered pair of attribute rows on two rules of EQUAL salience (names 1 then 0), alone and behind / in front
+    // of a rule of another salience
+    for q1 in 0..NQ {
+        for q2 in 0..NQ {
+            if q1 == q2 {
+                continue;
+            }
+            let pair = [Op::Add(1, 0, true, q1), Op::Add(0, 0, true, q2)];
+            let ops: Vec<Op> = match (q1 + q2) % 3 {
+                0 => pair.to_vec(),
+                1 => vec![Op::Add(2, 10, true, q2), pair[0].clone(), pair[1].clone()],
+                _ => vec![pair[0].clone(), Op::Add(2, -5, true, q1), pair[1].clone()],
+            };
+            out.push(format!("S 3 {}", show_ops(&ops)));
+        }
+    }
+    // (4b) random histories: 3..9 adds over shuffled names, two or three saliences, random rows, with removals, re-adds,
+    // toggles, clones and swaps in between; snapshot after every call
+    for _ in 0..(n / 6).max(60) {
+        let names = *rng.pick(&[3u32, 4, 6, 8]);
+        let mut order: Vec<u32> = (0..names).collect();
+        rng.shuffle(&mut order);
+        if order.windows(2).all(|w| w[0] < w[1]) {
+            order.reverse();
+        }
+        let sals: &[i32] = if rng.chance(1, 2) { &SALS[1..] } else { &SALS };
+        let few: Vec<u32> = (0..3).map(|_| rng.below(NQ as u64) as u32).collect();
+        let mut ops = Vec::new();
+        for (i, nm) in order.iter().enumerate() {
+            let q = if rng.chance(1, 2) { *rng.pick(&few) } else { rng.below(NQ as u64) as u32 };
+            ops.push(Op::Add(*nm, *rng.pick(sals), !rng.chance(1, 6), q));
+            if i > 0 {
+                match rng.below(12) {
+                    0 => ops.push(Op::Remove(order[rng.below(i as u64 + 1) as usize])),
+                    1 => ops.push(Op::Add(order[rng.below(i as u64 + 1) as usize], *rng.pick(sals), true, rng.below(NQ as u64) as u32)),
+                    2 => ops.push(Op::SetEnabled(order[rng.below(i as u64 + 1) as usize], rng.chance(1, 2))),
+                    3 => ops.push(Op::CloneKb),
+                    4 => ops.push(Op::Swap),
+                    _ => {}
+                }
+            }
+        }
+        out.push(format!("T {} {}", names, show_ops(&ops)));
+    }
+    // (4c) large knowledge bases (more than 20 stored rules: the std sorts leave their insertion-sort range) with rows
+    for _ in 0..(n / 50).max(6) {
+        let c = large_case(rng);
+        let t: Vec<&str> = c.split_whitespace().collect();
+        let ops: Vec<Op> = parse_ops(t[2])
+            .unwrap_or_default()
+            .into_iter()
+            .map(|o| match o {
+                Op::Add(a, b, c, _) => Op::Add(a, b, c, rng.below(NQ as u64) as u32),
+                o => o,
+            })
+            .collect();
+        out.push(format!("{} {} {}", t[0], t[1], show_ops(&ops)));
+    }
+    // (4d) bulk loading: the rows GRL text can express, as rule-header attributes
+    let grl_rows: Vec<u32> = (0..NQ).filter(|q| grl_attrs(*q).is_some()).collect();
+    for _ in 0..(n / 20).max(30) {
+        let names = *rng.pick(&[3u32, 4, 6]);
+        let pre: Vec<Op> = (0..rng.below(4))
+            .map(|_| Op::Add(rng.below(names as u64) as u32, *rng.pick(&SALS[1..]), true, rng.below(NQ as u64) as u32))
+            .collect();
+        let mut order: Vec<u32> = (0..names).collect();
+        rng.shuffle(&mut order);
+        let bulk: Vec<Op> = order.iter().map(|nm| Op::Add(*nm, *rng.pick(&SALS[1..]), true, *rng.pick(&grl_rows))).collect();
+        out.push(format!("B {} {} {}", names, show_ops(&pre), show_ops(&bulk)));
+    }
+    // (4e) concurrent histories whose adds carry rows
+    for _ in 0..(n / 40).max(6) {
+        let names = 3u32;
+        let pre: Vec<Op> = (0..2).map(|i| Op::Add(2 - i, 0, true, rng.below(NQ as u64) as u32)).collect();
+        let ths: Vec<String> = (0..3)
+            .map(|_| {
+                show_ops(
+                    &(0..4)
+                        .map(|_| match random_any(rng, names, &SALS[1..]) {
+                            Op::Add(a, b, c, _) => Op::Add(a, b, c, rng.below(NQ as u64) as u32),
+                            o => o,
+                        })
+                        .collect::<Vec<_>>(),
+                )
+            })
+            .collect();
+        out.push(format!("C {} {}", show_ops(&pre), ths.join(" ")));
+    }
+}
+
+/// candidates with one attribute row reset to the plain rule
+fn shrink_rows(ops: &[Op]) -> Vec<Vec<Op>> {
+    let mut out = Vec::new();
+    for i in 0..ops.len() {
+        if let Op::Add(a, b, c, q) = &ops[i] {
+            if *q != 0 {
+                let mut v = ops.to_vec();
+                v[i] = Op::Add(*a, *b, *c, 0);
+                out.push(v);
+            }
+        }
+    }
     out
 }
 
@@ -804,17 +992,17 @@ fn shrink(case: &str) -> Vec<String> {
     match t.first().copied() {
         Some("S") | Some("T") if t.len() == 3 => {
             if let Some(ops) = parse_ops(t[2]) {
-                for v in shrink_list(&ops) {
+                for v in shrink_list(&ops).into_iter().chain(shrink_rows(&ops)) {
                     out.push(format!("{} {} {}", t[0], t[1], show_ops(&v)));
                 }
             }
         }
         Some("B") if t.len() == 4 => {
             if let (Some(pre), Some(bulk)) = (parse_ops(t[2]), parse_ops(t[3])) {
-                for v in shrink_list(&pre) {
+                for v in shrink_list(&pre).into_iter().chain(shrink_rows(&pre)) {
                     out.push(format!("B {} {} {}", t[1], show_ops(&v), t[3]));
                 }
-                for v in shrink_list(&bulk) {
+                for v in shrink_list(&bulk).into_iter().chain(shrink_rows(&bulk)) {
                     if !v.is_empty() {
                         out.push(format!("B {} {} {}", t[1], t[2], show_ops(&v)));
                     }
